@@ -360,4 +360,73 @@ def kcentersFit (nClusters nInit : Int) (bipartite : Bool) (nRow nCol : Nat) (po
         let cc := (centers.filter fun c => !cr.contains c).map fun (c : Nat) => (c : Int) - nRow
         return ⟨s.labels, s.labelsRow, s.labelsCol, centers, some cr, some cc⟩
 
+/-- `np.equal(prev_centers, centers).all()` with `prev_centers = None` before the first round
+    (element-wise comparison with `None` is false everywhere; `.all()` of an empty array is true) -/
+def centersEqual (prev : Option (List Nat)) (centers : List Nat) : Bool :=
+  match prev with
+  | none => centers.isEmpty
+  | some p => p == centers
+
+/-- One restart of `KCenters.fit`: the loop
+      `while not np.equal(prev_centers, centers).all() and (n_iter < self.max_iter)`
+    whose body assigns `labels = pagerank_clf.fit_predict(adjacency, labels_center)`, sets
+    `prev_centers = centers.copy()`, computes `new_centers` (never stored back) and increments `n_iter`.
+    `classify centers` stands for the assignment.  Returns the last labels (`None` if the body never ran) and
+    `n_iter`; `none` = fuel exhausted. -/
+def kcentersAssign (classify : List Nat → List Nat) (maxIter : Int) (centers : List Nat) :
+    Nat → Option (List Nat) → Option (List Nat) → Nat → Option (Option (List Nat) × Nat)
+  | 0, _, _, _ => none
+  | fuel+1, prev, labels, nIter =>
+    if !centersEqual prev centers && decide ((nIter : Int) < maxIter) then
+      kcentersAssign classify maxIter centers fuel (some centers) (some (classify centers)) (nIter + 1)
+    else some (labels, nIter)
+
+/-- the checks at the head of `KCenters.fit`; returns the mask of admissible centres -/
+def kcentersChecks (nClusters nInit : Int) (bipartite : Bool) (nRow nCol : Nat) (pos : CenterPos) :
+    Except PyErr (List Bool) :=
+  if nClusters < 2 then .error .valueError
+  else if nInit < 1 then .error .valueError
+  else match maskCenters bipartite nRow nCol pos with
+    | .error e => .error e
+    | .ok mask => if nClusters > ((mask.filter id).length : Int) then .error .valueError else .ok mask
+
+/-- one restart: its centres, and what the assignment loop returned -/
+abbrev Attempt := List Nat × Option (Option (List Nat) × Nat)
+
+/-- the body of `for i in range(self.n_init)` up to the assignment loop, for every restart -/
+def kcentersAttempts (maxIter : Int) (mask : List Bool) (nClusters nInit : Nat)
+    (chooseOf : Nat → Nat → List Nat → Nat) (classify : Nat → List Nat → List Nat) : List Attempt :=
+  (List.range nInit).map fun i =>
+    (initCenters (chooseOf i) mask nClusters,
+     kcentersAssign (classify i) maxIter (initCenters (chooseOf i) mask nClusters) 3 none none 0)
+
+/-- `labels is None` after the loop: `get_modularity(adjacency, None)` raises a TypeError -/
+def attemptFailed (a : Attempt) : Bool :=
+  match a.2 with
+  | some (some _, _) => false
+  | _ => true
+
+def attemptRun (a : Attempt) : List Nat × List Nat :=
+  (a.1, match a.2 with | some (some l, _) => l | _ => [])
+
+def attemptCalls (a : Attempt) : Nat :=
+  match a.2 with
+  | some (_, n) => n
+  | none => 0
+
+/-- `KCenters.fit` with its restarts: `chooseOf i` are the random choices of restart `i`, `classify i` its
+    assignment, `idxMax` the restart of highest modularity.  Also returns the number of assignments performed. -/
+def kcentersFitFull (nClusters nInit maxIter : Int) (bipartite : Bool) (nRow nCol : Nat) (pos : CenterPos)
+    (chooseOf : Nat → Nat → List Nat → Nat) (classify : Nat → List Nat → List Nat) (idxMax : Nat) :
+    Except PyErr (KFitted × Nat) :=
+  match kcentersChecks nClusters nInit bipartite nRow nCol pos with
+  | .error e => .error e
+  | .ok mask =>
+    let attempts := kcentersAttempts maxIter mask nClusters.toNat nInit.toNat chooseOf classify
+    if attempts.any attemptFailed then .error .typeError
+    else
+      match kcentersFit nClusters nInit bipartite nRow nCol pos (attempts.map attemptRun) idxMax with
+      | .error e => .error e
+      | .ok k => .ok (k, (attempts.map attemptCalls).foldl (· + ·) 0)
+
 end SkNet.Clustering
